@@ -63,6 +63,10 @@ AuthAsserts(P, a, r) ==
     /\ A("refused", "a refused request consumed the owner's nonce",
          (MustAccept(P, a) /\ Refused(r) /\ r.err = "verify:nonce")
             => ~\E b \in Get(P.burn, a.ident, {}) : b >= a.nonce)
+    \* ... nor did the refused requests make room for a replay: what is honoured after them is still above the last accepted
+    /\ A("refused", "after refused requests a request is honoured although its nonce is not above the last accepted one",
+         (a.alter \in SameSig /\ ~Refused(r) /\ Get(P.burn, a.ident, {}) # {})
+            => NonceHigher(P, a.ident, a.nonce) /\ ~NonceMustStale(P, a.nonce))
     \* ... or for any other reason: whatever was refused in its name since its last accepted request left no trace
     /\ A("refused", "the owner's fresh request is refused after refused requests in its name",
          (MustAccept(P, a) /\ Get(P.burn, a.ident, {}) # {}) => ~Refused(r))
